@@ -26,6 +26,10 @@ def parseObs (t : String) : Option Obs :=
     | "sSerBegin" => some .sSerBegin
     | "sSerEnd" => some .sSerEnd
     | "sUnlock" => some .sUnlock
+    | "xStart" => some .xStart
+    | "iSeeSrv1" => some (.iSeeSrv true)
+    | "iSeeSrv0" => some (.iSeeSrv false)
+    | "iSkipUnlock" => some .iSkipUnlock
     -- silent events may be given explicitly in `X` (exact run) lines only
     | "iSeeNC0" => some .iSeeNC0
     | "sReq" => some .sReq
@@ -45,7 +49,7 @@ def phaseStr : Phase → String
   | .atBoundary => "B" | .inStep => "M" | .inAdjust => "A"
 
 /-- `A id ev…`  observed trace through the acceptor →
-      `id ACCEPT steps adj served phase ncands` | `id REJECT index token`
+      `id ACCEPT steps adj served phase ncands det|nondet clean|maybe-racy|racy noub|ub` | `id REJECT index token`
     `X id ev…`  exact run (all events given) → `id OK steps adj served phase` | `id STUCK index`
     `P id ev…`  exact run, then the integrator projection through the server-less machine →
       `id SAME` | `id DIFF` -/
@@ -65,7 +69,12 @@ def handle (toks : List String) : String :=
           | s :: _ =>
             -- all candidates differ only by silent server moves
             let same := cands.all (fun c => c.sim == s.sim && c.served == s.served && c.ipc == s.ipc)
-            s!"{id} ACCEPT {s.sim.steps} {s.sim.adj} {s.served} {phaseStr s.sim.phase} {cands.length} {if same then "det" else "nondet"}"
+            -- racy / ub: in SOME candidate explanation the server was started inside an unlocked iteration /
+            -- the integrator unlocked a mutex it did not own (must-be: in ALL of them)
+            let anyR := cands.any (·.racy); let allR := cands.all (·.racy)
+            let anyU := cands.any (·.ub)
+            let rs := if allR then "racy" else if anyR then "maybe-racy" else "clean"
+            s!"{id} ACCEPT {s.sim.steps} {s.sim.adj} {s.served} {phaseStr s.sim.phase} {cands.length} {if same then "det" else "nondet"} {rs} {if anyU then "ub" else "noub"}"
       | "X" =>
         let rec go (s : State) (i : Nat) : List Obs → String
           | [] => s!"{id} OK {s.sim.steps} {s.sim.adj} {s.served} {phaseStr s.sim.phase}"
